@@ -23,8 +23,8 @@ CHECKS = {
          "Each valid file (generated + corpus) is edited at all/sampled eligible positions computed from its own token stream; every edited text is parsed by the real lexer/parser and must give the same tree. Exploration over (edit kind x lexer state) classes.",
          "Edits never touch the inside of string-like tokens; CRLF/re-indent skip files with multi-line strings.", "5/C10"),
  "C11": ("invariant monitor: every stage of the real front end run under catch_unwind on hostile inputs with diagnostic well-formedness assertions and all three renderers; crash/stall attribution per input; CLI exit-status monitor",
-         "Tens of thousands (thorough: >1M) of random, token-soup, mutated-valid and deeply nested inputs pushed through lex/parse/check/format/emit in-process, plus the real CLI on a sample. Exploration; the depth bound (150) is part of the claim.",
-         "catch_unwind catches panics only; aborts/stack overflows are seen as a dead harness process and attributed to the input in flight.", "5/C11"),
+         "Tens of thousands (thorough: >1M) of random, token-soup, mutated-valid, deeply nested, numeric-boundary, escape-next-to-multibyte and wrong-arity-generic inputs pushed through lex/parse/check/format/emit in-process, plus the real CLI on a sample. Exploration; the depth bound (150) is part of the claim.",
+         "catch_unwind catches panics only; aborts/stack overflows are seen as a dead harness process and attributed to the input in flight. The harness is built with integer overflow checks on, so an overflow inside the compiler (a panic in dev builds, a silent wrap in release builds) is observed.", "5/C11"),
  "C19": ("reference-model monitor, exhaustive for a bounded space: all documents over a 6-symbol multi-byte alphabet up to length 6/7 x all offsets and span pairs, against an independent prefix counter; second oracle in Python on random long documents; terminal line:col vs the same count",
          "Exhaustive enumeration (exhaustive: true for the stated bound) plus random long documents; every conversion is executed by the real functions.", 
          "Characters are Unicode scalars; LF is the only line terminator.", "5/C19"),
@@ -43,8 +43,8 @@ CHECKS = {
  "C18": ("history checker over recorded client-boundary histories of the real language server (tower-lsp service, JSON-RPC framing, paused tokio time) under enumerated and randomised delay vectors at its await points (cfg incan_verif hook) and client back-pressure, against a sequential last-writer-wins model",
          "Thousands of burst histories (exhaustive delay vectors for bursts of 2-3 handlers, random for 3-12 messages over 1-3 documents) are executed by the real server; texts are unambiguous per (document, version), so every reply and publish identifies the version it was computed from. Evidence reports the distinct handler store orders actually observed.",
          "Interleaving granularity = the server's existing await points (handlers are polled cooperatively); liveness is restated as quiescence within 60 virtual seconds.", "5/C18"),
- "C14": ("differential monitor over generated project trees: files picked by the command-line collector vs the language server's resolver (read off marker consts in the loaded sources) vs a reference transcription of the documented rule; visibility / cycle / missing-module scenarios through the real `incan --check` with a watchdog",
-         "Hundreds (thorough: thousands) of directory layouts x import spellings are resolved by the real code paths in-process; every declaration kind x visibility x import form goes through the CLI. Exploration over scenario classes.",
+ "C14": ("differential monitor over generated project trees: files picked by the command-line collector vs the files the real language server loads (the set of files it publishes diagnostics for after the entry file is opened over JSON-RPC) vs a reference transcription of the documented rule; visibility / cycle / missing-module scenarios through the real `incan --check` with a watchdog",
+         "Hundreds (thorough: thousands) of directory layouts x import spellings are resolved by the real code paths in-process; every declaration kind x visibility x import form x module-path spelling (plain, crate::, super::, .., nested, mod.incn, reserved-root-prefixed names) goes through the CLI. Exploration over scenario classes.",
          "The reference resolver is consulted on layouts where the documented rule is unambiguous (.incn before .incan is documented).", "5/C14"),
  "C12": ("metamorphic monitor over process instances: the real `incan` commands run in N separate processes (own hash seeds) at different locations / environments / file creation orders; byte equality of exit status, stdout, stderr and the whole generated tree",
          "12 (thorough: 40) process instances per program over programs that stress every hash-ordered container reaching output (2-6 rust:: imports, several types/traits, multi-file projects, ill-typed programs with several diagnostics from one construct, grammar-generated files). Exploration; an order flip of two elements escapes N instances with probability 2^-(N-1).",
